@@ -124,6 +124,23 @@ def spec_outliers(x, m, col, ncol):
     bad = []
     if kept.shape[0] != sum(mask) or not (kept == data[np.array(mask)]).all():
         bad.append(("returned rows are exactly the masked rows", {}))
+    # the definition, in exact arithmetic: a row is kept iff |x_i - med| < m (MAD + 1e-10); decisions closer than 1e-9 (relative) to the boundary are not judged
+
+    def med(v):
+        v = sorted(v)
+        k = len(v)
+        return v[k // 2] if k % 2 else (v[k // 2 - 1] + v[k // 2]) / 2
+    xs = [Fraction(float(v)) for v in x]
+    mu = med(xs)
+    dev = [abs(v - mu) for v in xs]
+    bound = Fraction(float(m)) * (med(dev) + Fraction(1.0e-10))
+    for i, dv in enumerate(dev):
+        if abs(dv - bound) <= Fraction(1, 10 ** 9) * max(bound, Fraction(1, 10 ** 9)):
+            continue
+        if (dv < bound) != mask[i]:
+            bad.append(("a row is kept exactly when it lies within m median-absolute-deviations of the median",
+                        {"row": i, "value": float(xs[i]), "median": float(mu), "MAD": float(med(dev)), "kept": mask[i]}))
+            break
     return bad, mask
 
 
